@@ -9,8 +9,7 @@
   (where the return address, the saved registers, the caller's stack pointer are).
 
   Per frame the state is: lookup address, ip, sp, the frame pointer if valid, the link register
-  (first frame), the parameter size recorded on the frame below (grand callee), whether the frame
-  was found by the frame-pointer technique (ARM alias names, see notes/C04.md F28) and the known
+  (first frame), the parameter size recorded on the frame below (grand callee) and the known
   callee-saved registers.
 -/
 import MdModel.Walk.Layout
@@ -25,7 +24,6 @@ structure MState where
   lr : Nat
   first : Bool
   gcp : Nat
-  prevFp : Bool
   regs : List (String × Nat)
   deriving Repr, Inhabited
 
@@ -175,11 +173,8 @@ def linkCfiM (w : World) (a : Arch) (mask : Nat) (mem : Mem) (st : MState) (e : 
         (match slot a.fpName with
          | some got => got.map (maskOf a mask) == e.fp && e.fp.isSome
          | none =>
-           -- forwarded — except on ARM/ARM64 above a frame-pointer frame (alias names, F28)
-           -- (what the property asks for — the forwarded value — is admitted too: that is the
-           -- directed corpus case of the known finding)
-           if (a == .arm || a == .arm64 || a == .arm64old) && st.prevFp then e.fp.isNone || e.fp == st.fp
-           else e.fp == st.fp) &&
+           -- forwarded (on ARM/ARM64 also above a frame-pointer frame: F28 is fixed)
+           e.fp == st.fp) &&
         regsFrom st.regs e.regs (fun r => if r = a.fpName then none else slot r)
 
 def linkWinM (w : World) (wins : List (List Win.Rec)) (mem : Mem) (st : MState) (e : Exp) : Bool :=
@@ -291,7 +286,7 @@ def endMixed (w : World) (wins : List (List Win.Rec)) (a : Arch) (os : Os) (mem 
 def nextState (env : Env) (a : Arch) (st : MState) (e : Exp) : MState :=
   { instr := e.ret - a.adj, ip := e.ret, sp := e.sp, fp := e.fp, lr := 0, first := false,
     gcp := ((env.symb st.instr).2.map (·.psize)).getD 0,
-    prevFp := e.tech == "fp", regs := e.regs }
+    regs := e.regs }
 
 def preMixedFrom (w : World) (wins : List (List Win.Rec)) (env : Env) (a : Arch) (os : Os) (mem : Mem) :
     MState → List Exp → Bool
@@ -304,7 +299,7 @@ def initState (a : Arch) (ctx : Ctx) : MState :=
   let has := fun r => ctx.has a r
   { instr := ctx.ip, ip := ctx.ip, sp := ctx.sp,
     fp := if has a.fpName then some (ctx.raw a a.fpName) else none,
-    lr := ctx.raw a (if a.isMips then "ra" else "lr"), first := true, gcp := 0, prevFp := false,
+    lr := ctx.raw a (if a.isMips then "ra" else "lr"), first := true, gcp := 0,
     regs := (a.calleeSaved.filter fun r => r ≠ a.fpName ∧ r ≠ a.spName ∧ ctx.hasLit r).map fun r => (r, ctx.raw a r) }
 
 /-- **The precondition of the C04 statements about per-frame techniques** (`win`, `mixed`):
